@@ -979,7 +979,9 @@ func c03QueueSetting(rng *Rng) string {
 // fanout: one info per binding with that crontab, for the queue it names. Plus 0-3 kubernetes bindings
 // through the real kubernetes bindings controller (fake events manager): one event per monitor, the info
 // must carry the queue of the binding that owns the monitor. Binding names: all different / none named /
-// from a pool of two; queue names include look-alikes of `main` and of each other.
+// from a pool of two; queue names include look-alikes of `main` and of each other. Half of the v1 cases:
+// schedule bindings carry a `group` from a pool of two (bindings of one crontab and one group in
+// different queues): the group has no say in how many tasks a tick makes, nor for which queues.
 func c03Controller(c *Case, rng *Rng) {
 	v0 := rng.Chance(30)
 	pool := []string{"1 1 1 1 *", "*/5 * * * *", "3 3 3 3 *"}
@@ -987,8 +989,17 @@ func c03Controller(c *Case, rng *Rng) {
 	type bnd struct {
 		name, queue string // name "" = no `name` key: the loader calls every such binding `schedule`
 		ct          int
+		group       string // `group` key of a v1 schedule binding ("" = absent): no say in the queue
 	}
 	var bs []bnd
+	// seventh wave: in half of the v1 cases the schedule bindings carry a `group` from a pool of two, so
+	// that bindings on one crontab share a group while naming different queues (a group joins snapshots
+	// and binding contexts of ONE execution; it does not join bindings, each keeps its task and queue)
+	grouped := !v0 && rng.Chance(50)
+	groupPool := []string{"", "g1", "g1", "g2"}
+	if rng.Chance(30) {
+		groupPool = []string{"g1"}
+	}
 	// names: 0 = all different, 1 = no binding has a name, 2 = names from a pool of two (collisions)
 	naming := rng.Intn(3)
 	for j := rng.Range(1, 5); j > 0; j-- {
@@ -1001,6 +1012,9 @@ func c03Controller(c *Case, rng *Rng) {
 		}
 		if !v0 {
 			b.queue = PickOne(rng, queues)
+		}
+		if grouped {
+			b.group = PickOne(rng, groupPool)
 		}
 		bs = append(bs, b)
 	}
@@ -1016,6 +1030,9 @@ func c03Controller(c *Case, rng *Rng) {
 		}
 		if b.queue != "" {
 			fmt.Fprintf(&y, "  queue: %s\n", b.queue)
+		}
+		if b.group != "" {
+			fmt.Fprintf(&y, "  group: %s\n", b.group)
 		}
 	}
 	// 0-3 kubernetes bindings, named by the same regime
@@ -1148,4 +1165,12 @@ func c03Controller(c *Case, rng *Rng) {
 	c.Nontrivial = len(bs)+len(kbs) >= 2
 	c.Note("kind:controller-" + ver)
 	c.Note(fmt.Sprintf("controller:naming-%d", naming))
+	// coverage: two bindings on one crontab in one group that name different queues
+	for i, a := range bs {
+		for _, b := range bs[:i] {
+			if a.group != "" && a.group == b.group && a.ct == b.ct && a.queue != b.queue {
+				c.Note("controller:one-group-one-crontab-two-queues")
+			}
+		}
+	}
 }
